@@ -48,6 +48,14 @@ def attr_uf(name):
     return _ATTR_UF[name]
 
 
+class MissingFunction(Exception):
+    """A function under contract is no longer defined in the current source (removed / renamed)."""
+
+    def __init__(self, qualname):
+        super().__init__(qualname)
+        self.qualname = qualname
+
+
 class Unsupported(Exception):
     """The engine cannot analyse this construct (tool limit, never a violation)."""
 
